@@ -53,6 +53,17 @@ type vfC29Out struct {
 	Size   int
 	Data   string
 	Target string
+	EOF    bool // READ: the reply says the data ends the file
+}
+
+// vfC29ReadMatches: does a READ reply (64 bytes asked from offset 0) describe the state whose bytes
+// are want? A reply that says eof carries the whole file; one that does not may be a short read -
+// RFC 1813 lets READ return fewer bytes than asked - so its data is a proper prefix of the file.
+func vfC29ReadMatches(want string, got vfC29Out) bool {
+	if got.Data == want {
+		return true
+	}
+	return !got.EOF && len(got.Data) < len(want) && want[:len(got.Data)] == got.Data
 }
 
 type vfC29State map[string]vfObj
@@ -488,6 +499,7 @@ func vfC29Episode(rec *evid.Rec, ep int) {
 					res = do(6, xdrw.ArgRead(handles[in.Path], 0, 64))
 					if res != nil && res.Status == 0 {
 						out.Data = string(res.Data)
+						out.EOF = res.EOF
 					}
 				case "readlink":
 					res = do(5, xdrw.ArgFH(handles[in.Path]))
@@ -638,7 +650,7 @@ func vfC29Episode(rec *evid.Rec, ep int) {
 						return false, st
 					}
 				case "read":
-					if want.Data != o.Data {
+					if !vfC29ReadMatches(want.Data, o) {
 						return false, st
 					}
 				case "readlink":
@@ -707,7 +719,7 @@ func vfC29Episode(rec *evid.Rec, ep int) {
 					case "lookup", "getattr":
 						okAny = want.Kind == h.out.Kind && want.Size == h.out.Size
 					case "read":
-						okAny = want.Data == h.out.Data
+						okAny = vfC29ReadMatches(want.Data, h.out)
 					case "readlink":
 						okAny = want.Target == h.out.Target
 					}
